@@ -147,6 +147,16 @@ def check_selection(sel, ctx):
             ctx.check(got == expect, "apply-acceptance", dict(desc, expect=expect, route="Indentation", attempt=attempt),
                       f"Indentation.apply_preprocessing({sel}) on a curve with an innate tip position, attempt {attempt}: "
                       f"accepted={got}, requirements met={expect} {msg}")
+        # the caller's list object was applied before with other content and is edited in place
+        held = ["compute_tip_position"]
+        idh = small_curve(with_tip=False)
+        idh.apply_preprocessing(held, options={})
+        held[:] = list(sel)
+        if held != ["compute_tip_position"]:
+            got, msg = acceptance(lambda: idh.apply_preprocessing(held, options={}))
+            ctx.check(got == expect, "apply-acceptance", dict(desc, expect=expect, route="Indentation", attempt="list edited in place"),
+                      f"Indentation.apply_preprocessing with the previously applied list object edited in place to {sel}: "
+                      f"accepted={got}, requirements met={expect} {msg}")
 
 
 def check_unknown(case, ctx):
